@@ -565,7 +565,7 @@ def run(run, model, proof):
                 n = len([c for c in fmt.replace("%%", "") if c == "%"])
                 for k in {n, max(n - 1, 0), n + 1} if thorough else {n}:
                     check_fmt(run, model, fmt, [gen_arg(rng) for _ in range(k)], "shipped")
-        for i in range(20000 if thorough else 2500):
+        for i in range(60000 if thorough else 2500):
             n = rng.randrange(0, 7)
             fmt = gen_fmt(rng, n, bad=rng.random() < 0.08)
             k = n if rng.random() < 0.8 else rng.randrange(0, 8)
@@ -596,7 +596,7 @@ def run(run, model, proof):
             check_spec(run, model, t, mk_header(rng, 32, comp=comp), [], "component")
 
         # ---- every data length 0..1024 (all four alignments), spread over buffers of 0..60 entries ----
-        lengths = list(range(0, 1025)) * (3 if thorough else 1)
+        lengths = list(range(0, 1025)) * (4 if thorough else 1)
         rng.shuffle(lengths)
         counts = list(range(0, 61))
         ci = 0
@@ -633,7 +633,7 @@ def run(run, model, proof):
                 check_spec(run, model, t, mk_header(rng, wf_size(rng, es)), es, "lookup", also_raw=False)
 
         # ---- truncation at every offset ----
-        for i in range(12 if thorough else 4):
+        for i in range(24 if thorough else 4):
             t = every[i % len(every)] if thorough else tables[i % len(tables)]
             es = gen_entries(rng, t, rng.choice((3, 5, 8)))
             h = mk_header(rng, rng.choice((total_len(es), 0xFFFFFFFF)))
@@ -643,7 +643,7 @@ def run(run, model, proof):
             run.sample(dict(fn="trace", case="truncate", table=t.name, input_hex=data.hex(), lines=impl_parse(data, t.path)[:12]), 2)
 
         # ---- single-field corruptions ----
-        for i in range(300 if thorough else 40):
+        for i in range(600 if thorough else 40):
             t = tab(i, 8)
             es = gen_entries(rng, t, rng.choice((1, 2, 3, 6)))
             h = mk_header(rng, rng.choice((total_len(es), total_len(es), 0xFFFFFFFF)))
@@ -655,7 +655,7 @@ def run(run, model, proof):
             check_raw(run, model, t, data + py_encode_entry(mk_entry(rng, b"late", h=1)), "trailing")
 
         # ---- unstructured bytes behind a header ----
-        for i in range(3000 if thorough else 300):
+        for i in range(10000 if thorough else 300):
             t = every[i % len(every)]
             n = rng.randrange(0, 200)
             body = gen_data(rng, n)
